@@ -94,6 +94,18 @@ SPECS = {
         "assumptions": ASSUME_COMMON,
         "cfg_overrides": {"restart_via": "dict"},
     },
+    "C06": {
+        "driver": H, "level": "exploration",
+        "runs": {"quick": 3000, "thorough": 200000},
+        "rule": "read steps on states reached by seeded histories: every iteration method from "
+                "tree or node start (add_self on/off) compared with the model order; visit() "
+                "with a simulator-owned callback that returns or raises a skip/stop signal in "
+                "every documented spelling at chosen nodes (callback sequence, nothing after "
+                "stop, carried value); RANDOM_ORDER with the PRNG bound to a seeded SimRandom. "
+                "Non-trivial: >= 3 successful mutations and a traversal probe fired.",
+        "probes": ["visit_skip", "visit_stop", "iter_zigzag", "iter_random"],
+        "assumptions": ASSUME_COMMON,
+    },
     "C07": {
         "driver": H, "level": "exploration",
         "runs": {"quick": 4000, "thorough": 400000},
@@ -121,8 +133,20 @@ SPECS = {
     },
     "C13": {
         "driver": H, "level": "fault_enumeration",
-        "runs": {"quick": 4000, "thorough": 400000},
-        "rule": "seeded histories with declared-invalid operations and callback faults",
+        "runs": {"quick": 3000, "thorough": 300000},
+        "extra_blocks": [{"engine": "enum", "mod": "simkit.enum13", "fn": "enum_block",
+                          "runs": {"quick": 150, "thorough": 10000}}],
+        "exhaustive_note": "fault positions k are enumerated completely for each sampled base "
+                           "history (coverage.enum); base histories themselves are sampled",
+        "rule": "part 1 (sampled): seeded histories in which operations with declared-invalid "
+                "arguments and callback faults (k-th invocation of id hook / predicate / mapper / "
+                "sort key / visitor / match / repr raises, k-th stream write fails) are ordinary "
+                "steps; a refused op must leave every tree observably unchanged, an escaped "
+                "callback fault must leave C01-C03 intact (read-only ops: unchanged). part 2 "
+                "(enumerated): for each sampled fault-free base history (<= 25 steps) every "
+                "(step, callback kind, k) fault point is replayed (coverage.enum). Non-trivial: "
+                ">= 3 successful mutations and a probe fired / every enumerated replay is "
+                "distinct by (base, fault point, step log).",
         "probes": ["add_before_not_child_refused", "move_into_descendant_refused",
                    "set_data_no_decision_refused", "del_ambiguous_refused",
                    "callback_fault_fired"],
